@@ -186,3 +186,81 @@ Proof.
   - destruct (Nat.eqb_spec i j); [congruence|reflexivity].
 Qed.
 End Jobs.
+
+(* ---------- the cycle check never runs out of its fuel ---------- *)
+Definition unvisited (keys visited : list text) : list text := filter (fun k => negb (mem_text k visited)) keys.
+
+Lemma mem_text_app x a b : mem_text x (a ++ b) = mem_text x a || mem_text x b.
+Proof. unfold mem_text. induction a as [|y a IH]; cbn; [reflexivity|]. rewrite IH. apply orb_assoc. Qed.
+Lemma text_eqb_sym a b : text_eqb a b = text_eqb b a.
+Proof.
+  destruct (text_eqb a b) eqn:E.
+  - apply text_eqb_eq in E. subst. symmetry. apply text_eqb_refl.
+  - destruct (text_eqb b a) eqn:E2; [|reflexivity]. apply text_eqb_eq in E2. subst. rewrite text_eqb_refl in E. discriminate.
+Qed.
+Lemma g_find_key k (g : graph) v : g_find k g = Some v -> In k (map fst g).
+Proof.
+  induction g as [|[k' v'] t IH]; [discriminate|]. cbn [g_find map fst].
+  destruct (text_eqb k k') eqn:E; [apply text_eqb_eq in E; subst; left; reflexivity|]. intros H. right. apply IH. exact H.
+Qed.
+Lemma unvisited_shrinks keys visited node :
+  In node keys -> mem_text node visited = false ->
+  (length (unvisited keys (visited ++ [node])) < length (unvisited keys visited))%nat.
+Proof.
+  intros Hin Hv. unfold unvisited. induction keys as [|k t IH]; [contradiction|].
+  cbn [filter]. rewrite mem_text_app.
+  assert (Hle : forall l, (length (filter (fun k0 => negb (mem_text k0 (visited ++ [node]))) l)
+                           <= length (filter (fun k0 => negb (mem_text k0 visited)) l))%nat).
+  { induction l as [|x l IHl]; [cbn; lia|]. cbn [filter]. rewrite mem_text_app.
+    destruct (mem_text x visited); cbn [orb negb]; [exact IHl|]. destruct (mem_text x [node]); cbn [negb length]; lia. }
+  destruct Hin as [->|Hin].
+  - rewrite Hv. cbn [orb negb]. unfold mem_text at 1. cbn [existsb]. rewrite text_eqb_refl. cbn [orb negb length].
+    specialize (Hle t). lia.
+  - specialize (IH Hin). destruct (mem_text k visited); cbn [orb negb]; [exact IH|].
+    destruct (mem_text k [node]); cbn [negb length]; [specialize (Hle t); lia|lia].
+Qed.
+
+Lemma node_cycle_fuel (g : graph) f : forall node visited,
+  mem_text node visited = false ->
+  (length (unvisited (map fst g) visited) < f)%nat ->
+  node_cycle f g node visited <> None.
+Proof.
+  induction f as [|f IH]; intros node visited Hv Hf; [lia|].
+  cbn [node_cycle]. destruct (g_find node g) as [refs|] eqn:E; [|discriminate].
+  pose proof (unvisited_shrinks (map fst g) visited node (g_find_key _ _ _ E) Hv) as Hs.
+  clear E. induction refs as [|r t IHr]; [discriminate|].
+  destruct (mem_text r (visited ++ [node])) eqn:Em; [discriminate|].
+  pose proof (IH r (visited ++ [node]) Em ltac:(lia)) as Hr.
+  destruct (node_cycle f g r (visited ++ [node])) as [[|]|]; [discriminate|exact IHr|congruence].
+Qed.
+
+Lemma unvisited_nil_le keys : (length (unvisited keys []) <= length keys)%nat.
+Proof. unfold unvisited. induction keys as [|k t IH]; cbn [filter length]; [lia|]. destruct (negb (mem_text k [])); cbn [length]; lia. Qed.
+
+Theorem cycle_check_total (g : graph) : graph_has_cycle g <> None.
+Proof.
+  unfold graph_has_cycle.
+  assert (H : forall k, node_cycle (S (S (length g))) g k [] <> None).
+  { intros k. apply node_cycle_fuel; [reflexivity|]. pose proof (unvisited_nil_le (map fst g)). rewrite map_length in H. lia. }
+  assert (G : forall ks : graph,
+     (fix go (ks : graph) : option bool :=
+        match ks with
+        | [] => Some false
+        | (k, _) :: t => match node_cycle (S (S (length g))) g k [] with
+                         | None => None
+                         | Some true => Some true
+                         | Some false => go t
+                         end
+        end) ks <> None).
+  { induction ks as [|[k v] t IH]; [discriminate|].
+    specialize (H k). destruct (node_cycle (S (S (length g))) g k []) as [[|]|]; [discriminate|exact IH|congruence]. }
+  apply G.
+Qed.
+
+(* so the order-independence needs no fuel hypothesis *)
+Theorem cycle_check_order_independent' (g g' : graph) :
+  Permutation g g' -> NoDup (map fst g) -> graph_has_cycle g' = graph_has_cycle g.
+Proof.
+  intros P ND. apply cycle_check_order_independent; [exact P|exact ND|].
+  intros kv _. apply node_cycle_fuel; [reflexivity|]. pose proof (unvisited_nil_le (map fst g)). rewrite map_length in H. lia.
+Qed.
